@@ -397,6 +397,32 @@ impl Network {
 }
 
 impl Network {
+    /// upper bound on the number of vehicles a schedule needs: the number of vehicles required to
+    /// serve each service trip (by its own vehicle type) plus one vehicle per maintenance track.
+    pub fn vehicle_upper_bound(
+        service_trips: &HashMap<VehicleTypeIdx, Vec<ServiceTrip>>,
+        maintenance_slots: &[MaintenanceSlot],
+        vehicle_types: &VehicleTypes,
+    ) -> VehicleCount {
+        let required_vehicles: VehicleCount = service_trips
+            .iter()
+            .map(|(vehicle_type, trips)| {
+                let vehicle_type = vehicle_types.get(*vehicle_type).unwrap();
+                trips
+                    .iter()
+                    .map(|trip| {
+                        trip.passengers()
+                            .div_ceil(vehicle_type.capacity())
+                            .max(trip.seated().div_ceil(vehicle_type.seats()))
+                    })
+                    .sum::<VehicleCount>()
+            })
+            .sum();
+        let maintenance_tracks: VehicleCount =
+            maintenance_slots.iter().map(|m| m.track_count()).sum();
+        required_vehicles + maintenance_tracks
+    }
+
     /// create a new network from the given data.
     /// The nodes idx must be in such a way that service_trips flattened and then maintenance
     /// nodes as vec gives the index within the vector.
@@ -433,7 +459,14 @@ impl Network {
             })
             .max()
             .unwrap_or(1);
-        let overflow_capacity = number_of_service_nodes as VehicleCount * max_formation_count;
+        // the overflow depot must be able to host every vehicle: at least one vehicle per required
+        // unit of each service trip and one per maintenance track (formations may be unlimited)
+        let overflow_capacity = (number_of_service_nodes as VehicleCount * max_formation_count)
+            .max(Network::vehicle_upper_bound(
+                &service_trips,
+                &maintenance_slots,
+                &vehicle_types,
+            ));
         let overflow_depot_id = DepotIdx::from(depots.len() as Idx);
         let overflow_depot = Depot::new(
             overflow_depot_id,
